@@ -85,6 +85,33 @@ type Proxy struct {
 
 	inflight atomic.Int32
 	closed   atomic.Bool
+
+	// Hook, when set, sees every request first. handled=true means reply (or drop) is used
+	// instead of the honest answer; it runs outside the proxy mutex.
+	Hook func(idx int, req []byte) (reply []byte, drop bool, handled bool)
+
+	recMu sync.Mutex
+	adds  []agent.AddedKey
+}
+
+// recRing records the AddedKey of every add request on its way to the keyring.
+type recRing struct {
+	agent.ExtendedAgent
+	p *Proxy
+}
+
+func (r recRing) Add(k agent.AddedKey) error {
+	r.p.recMu.Lock()
+	r.p.adds = append(r.p.adds, k)
+	r.p.recMu.Unlock()
+	return r.ExtendedAgent.Add(k)
+}
+
+// Adds returns the AddedKey values (constraints included) the underlying agent received so far.
+func (p *Proxy) Adds() []agent.AddedKey {
+	p.recMu.Lock()
+	defer p.recMu.Unlock()
+	return append([]agent.AddedKey(nil), p.adds...)
 }
 
 // NewProxy starts a proxy over a fresh keyring.
@@ -101,7 +128,7 @@ func NewProxy() (*Proxy, error) {
 	}
 	c1, c2 := net.Pipe()
 	p.be = c1
-	go func() { _ = agent.ServeAgent(p.ring, c2) }()
+	go func() { _ = agent.ServeAgent(recRing{p.ring.(agent.ExtendedAgent), p}, c2) }()
 	go p.acceptLoop()
 	return p, nil
 }
@@ -247,7 +274,15 @@ func (p *Proxy) serve(c net.Conn, id int) {
 
 		var reply []byte
 		drop := false
+		if fault == "" && p.Hook != nil {
+			if r, d, handled := p.Hook(idx, req); handled {
+				reply, drop = r, d
+				fault = "hook"
+				fr.Fault = "hook"
+			}
+		}
 		switch fault {
+		case "hook":
 		case "fail":
 			reply = []byte{CodeFailure}
 		case "malformed":
